@@ -115,6 +115,13 @@ func small() any { return []any{int64(1), "a", true} }
 
 func long() any { return []any{strings.Repeat("0123456789", 30), map[string]any{"k": []any{nil, 1.5}}} }
 
+// huge is written as more text than the buffer a pooled writer starts with
+// (1024 bytes): the buffer is grown, and what is done with the grown buffer is
+// another piece of code than what is done with the one that sufficed.
+func huge() any {
+	return []any{strings.Repeat("0123456789", 120), map[string]any{"k": []any{nil, 1.5}}}
+}
+
 // Groups returns the harness alphabet.
 func Groups() []*Group {
 	sharedExpr := jp.MustParseString("$.a[?(@.x > 1)].y")
@@ -281,6 +288,19 @@ func Groups() []*Group {
 				err := sen.Unmarshal([]byte(`{x:5 y:five}`), &in)
 				return fmt.Sprintf("%+v / %s", in, errText(err)), nil
 			}},
+		}},
+		{Name: "grown-buffer", Shared: "oj marshalPool / writerPool, sen writerPool: a text longer than the 1024 bytes a pooled writer starts with", Ops: []Op{
+			{"oj.Marshal(huge)", func() (string, []byte) { b, err := oj.Marshal(huge()); return string(b) + " / " + errText(err), b }},
+			{"oj.Marshal(long)", func() (string, []byte) { b, err := oj.Marshal(long()); return string(b) + " / " + errText(err), b }},
+			{"oj.JSON(huge)", func() (string, []byte) { return oj.JSON(huge()), nil }},
+			{"sen.Bytes(huge)", func() (string, []byte) { b := sen.Bytes(huge()); return string(b), b }},
+			{"sen.Bytes(small)", func() (string, []byte) { b := sen.Bytes(small()); return string(b), b }},
+		}},
+		{Name: "plan-cache.typed", Shared: "oj / sen struct plan caches: struct types reached through a typed map or slice that is the value itself", Ops: []Op{
+			{"oj.JSON(map[string]Inner)", func() (string, []byte) { return oj.JSON(map[string]Inner{"k": {X: 1, Y: "m"}}), nil }},
+			{"sen.String([]*Inner)", func() (string, []byte) { return sen.String([]*Inner{{X: 2, Y: "s"}}), nil }},
+			{"oj.JSON(*Outer,sort)", func() (string, []byte) { return oj.JSON(outer(), sortOpt), nil }},
+			{"sen.String(*Outer,omitEmpty)", func() (string, []byte) { return sen.String(outer(), emptyOpt), nil }},
 		}},
 		{Name: "plan-cache", Shared: "oj / sen / alt struct plan caches (same type first seen concurrently)", Ops: []Op{
 			{"oj.JSON(*Outer,sort)", func() (string, []byte) { return oj.JSON(outer(), sortOpt), nil }},
